@@ -43,6 +43,26 @@ func runC11(w *World, r *Report) {
 			}
 		})
 		r.Check(ok, "R1", "GetCurrentPoliciesData/lookup-locked", gc.Pos(), "policiesVersions[currentVersion] is read under the accessor's lock")
+		// the current version's data is what is returned whenever it exists
+		okRet, nFound := true, 0
+		for _, alt := range ReturnAlts(gc, 0) {
+			p := Path(alt.Val)
+			isLookup := strings.Contains(p, ".policiesVersions[") && strings.HasSuffix(p, ".currentVersion]#0")
+			found := condsHave(expandConds(alt.Conds), true, func(v ssa.Value) bool {
+				return strings.Contains(Path(v), ".policiesVersions[") && strings.HasSuffix(Path(v), "#1")
+			})
+			notFound := condsHave(expandConds(alt.Conds), false, func(v ssa.Value) bool {
+				return strings.Contains(Path(v), ".policiesVersions[") && strings.HasSuffix(Path(v), "#1")
+			})
+			switch {
+			case isLookup && found:
+				nFound++
+			case !isLookup && notFound:
+			default:
+				okRet = false
+			}
+		}
+		r.Check(okRet && nFound == 1, "R1", "GetCurrentPoliciesData/returns-current-when-present", gc.Pos(), "the stored data of currentVersion is returned exactly on the found edge; the empty placeholder only when the version is missing")
 	}
 	// `active` is written once, before the goroutine that reads it is started
 	for _, a := range w.fieldAccesses(pkgVacuum, "MapVacuum", []string{"active"}) {
